@@ -318,6 +318,26 @@ def run(tier, seed):
                            "how_to_rerun": "printf '%s' > t.asm && az65 6502 t.asm | xxd" % src.replace("'", "'\\''")})
         else:
             e2e_ok += 1
+    # conditionals nested WITHOUT parentheses: the documented grammar wants them parenthesised (the
+    # unchanged assembler rejects the bare chain); whatever is accepted must have its C meaning
+    import itertools
+    chain = []
+    for c1, c2 in itertools.product((0, 1, 5), repeat=2):
+        for form in ("else", "then"):
+            a, b, d = 2, 3, 4
+            if form == "else":
+                src_e, want_v = f"{c1} ? {a} : {c2} ? {b} : {d}", (a if c1 else (b if c2 else d))
+            else:
+                src_e, want_v = f"{c1} ? {c2} ? {a} : {b} : {d}", ((a if c2 else b) if c1 else d)
+            chain.append((f"q{len(chain)}", f"@db {src_e}\n", want_v))
+    impl3 = C.run_impl([f"{cid}\tasm\t6502\t/\t/m.asm\t-\t/m.asm={C.hexs(src)}" for cid, src, w in chain])
+    for cid, src, w in chain:
+        i = impl3.get(cid, ["MISSING"])
+        chk.evaluations += 1
+        chk.distinct.add("chain:" + src)
+        if i[0] in ("CRASH", "ABORT", "MISSING") or (i[0] == "OK" and i[1] != f"{w:02x}"):
+            chk.violation("e2e:ternary-chain", f"bare conditional chain accepted with a value that is not C's: `{src.strip()}` gives {i[:2]}, C gives {w}",
+                          {"mode": "asm", "arch": "6502", "source": src, "impl": i[:2], "c_value": w})
     chk.samples.append({"e2e_source": e2e[1300][2] if len(e2e) > 1300 else e2e[-1][2], "impl": impl2.get(e2e[min(1300, len(e2e) - 1)][0])})
     chk.oblige("correspondence: Expr::evaluate = Model.evaluate on every generated node list",
                not chk.disagreements, json.dumps(chk.disagreements[:2])[:600])
